@@ -45,8 +45,8 @@ func float32ToJSONFloat(f float32) float64 {
 
 // ConvertToJSONSupportedValue converts any type of Go into a type that is supported by JSON
 func ConvertToJSONSupportedValue(t interface{}) JSONValue {
-	if rv := reflect.ValueOf(t); rv.Kind() == reflect.Ptr && rv.IsNil() {
-		return nil // a nil pointer of any type is JSON null
+	if rv := reflect.ValueOf(t); (rv.Kind() == reflect.Ptr || rv.Kind() == reflect.Slice || rv.Kind() == reflect.Map) && rv.IsNil() {
+		return nil // a nil pointer, slice or map of any type is JSON null
 	}
 	switch v := t.(type) {
 	// all number types are stored as float64, i.e., IEEE 754 64 bits floating point type.
